@@ -4,10 +4,11 @@ From CG Require Import Model.Bench Model.BenchSpec Model.Lint Proofs.BenchProofs
 Open Scope string_scope.
 
 (* ---- obligations on the regenerated tables of io.py ---- *)
-(* the four scan patterns are the documented ones (the scanning layer itself is tied by correspondence only) *)
+(* the comment pattern and the four scan patterns are the documented ones (the scanning layer itself is tied by
+   correspondence only) *)
 Theorem C15_scan_patterns :
-  (rd_pat_input, rd_pat_gate_pre, rd_pat_gate_post, rd_pat_dff, rd_pat_output) =
-  ("(?:INPUT|input)\s*\(\s*([a-zA-Z][a-zA-Z\d_]*)\s*\)", "([a-zA-Z][a-zA-Z\d_]*)\s*=\s*(", ")\(([^\)]+)\)",
+  (rd_pat_comment, rd_pat_input, rd_pat_gate_pre, rd_pat_gate_post, rd_pat_dff, rd_pat_output) =
+  ("#[^\n]*", "(?:INPUT|input)\s*\(\s*([a-zA-Z][a-zA-Z\d_]*)\s*\)", "([a-zA-Z][a-zA-Z\d_]*)\s*=\s*(", ")\(([^\)]+)\)",
    "([a-zA-Z][a-zA-Z\d_]*)\s*=\s*(DFF|dff)\(([^\)]+)\)", "(?:OUTPUT|output)\s*\(\s*([a-zA-Z][a-zA-Z\d_]*)\s*\)").
 Proof. reflexivity. Qed.
 Print Assumptions C15_scan_patterns.
